@@ -183,12 +183,17 @@ func main() {
 	start := time.Now()
 
 	// 1. overlay
-	if out, err := run(verifDir, nil, goBin, "run", "./cmd/rewrite", "-repo", *repo, "-out", workDir); err != nil {
+	rwArgs := []string{"run", "./cmd/rewrite", "-repo", *repo, "-out", workDir}
+	if alt := os.Getenv("VERIF_SRC"); alt != "" {
+		// development aid: judge an edited copy of the repository without touching /repo
+		rwArgs = append(rwArgs, "-src", alt)
+	}
+	if out, err := run(verifDir, nil, goBin, rwArgs...); err != nil {
 		die2("rewrite failed:\n%s", out)
 	}
 
 	// 2. worker binaries
-	race := prop == "C08"
+	race := prop == "C08" || prop == "C10"
 	bin := filepath.Join(workDir, "sim.test")
 	if out, err := run(verifDir, nil, goBin, "test", "-c", "-overlay", filepath.Join(workDir, "overlay.json"), "-o", bin, "./sim/simtest/"); err != nil {
 		die2("build failed:\n%s", out)
@@ -236,7 +241,7 @@ func main() {
 	}
 	jobs := []job{{bin, false}}
 	if race {
-		// C08: half of the cores run the race-instrumented binary (own-reply oracle runs in both)
+		// half of the cores run the race-instrumented binary (the other oracles run in both)
 		jobs = []job{{bin, false}, {raceBin, true}}
 	}
 
@@ -290,7 +295,9 @@ func main() {
 				recs = append(recs, r...)
 				nondet = append(nondet, nd...)
 				mu.Unlock()
-				if err == nil {
+				if err == nil || len(s) > 0 {
+					// a summary was written: the sweep ran to its end (the testing package marks the test
+					// as failed when the race detector reported anything; that is the oracle's business)
 					return
 				}
 				// the worker died: a panic in a goroutine of the library, or trouble of ours
@@ -307,9 +314,6 @@ func main() {
 	}
 	wg.Wait()
 
-	if len(nondet) > 0 {
-		die2("determinism self-test failed: the same seed produced different traces\n%s", strings.Join(nondet, "\n"))
-	}
 
 	// 3. crashes: confirm by running the seed alone in a fresh process
 	exit := 0
@@ -330,22 +334,18 @@ func main() {
 			die2("a worker died but its last run (index %d, seed %d) does not crash when run alone:\n%s", idx, sd, parts[2])
 		}
 		sig := crashSig(out)
-		if prop != "C04" {
-			fmt.Printf("NOTE: the process crashes reproducibly at seed %d (%s) - a C04 matter, not judged by this check\n", sd, sig)
-			continue
-		}
-		if f := matchFinding(known, prop, "C04:crash:"+sig, string(out)); f != nil {
+		if f := matchFinding(known, prop, prop+":crash:"+sig, string(out)); f != nil {
 			knownHit[f.ID]++
 			knownSeed[f.ID] = sd
 			continue
 		}
 		path := filepath.Join(verifDir, "replays", fmt.Sprintf("%s-%d.json", prop, sd))
-		rec := map[string]any{"property": prop, "seed": sd, "code": "process-crash", "signature": "C04:crash:" + sig,
+		rec := map[string]any{"property": prop, "seed": sd, "code": "process-crash", "signature": prop + ":crash:" + sig,
 			"crash": true, "base": seed, "index": idx, "output_tail": lastLines(out, 60)}
 		b, _ := json.MarshalIndent(rec, "", " ")
 		os.WriteFile(path, b, 0o644)
 		lines = append(lines, fmt.Sprintf("VIOLATION property=%s replay=%s", prop, path))
-		fmt.Printf("  process crash (panic outside any caller goroutine) at seed %d: %s\n", sd, sig)
+		fmt.Printf("  signature %s:crash:%s - the process dies (panic in a goroutine of the library) at seed %d\n%s\n", prop, sig, sd, indent(lastLines(out, 14)))
 		exit = 1
 	}
 
@@ -398,7 +398,7 @@ func main() {
 		r := fresh[0]
 		path := filepath.Join(verifDir, "replays", fmt.Sprintf("%s-%d.json", prop, r.Seed))
 		useBin := bin
-		if strings.HasPrefix(sig, "C08:race") && raceBin != "" {
+		if strings.Contains(sig, ":race:") && raceBin != "" {
 			useBin = raceBin
 		}
 		final := minimiseAndVerify(prop, useBin, r, path)
@@ -411,6 +411,17 @@ func main() {
 			}
 		}
 		exit = 1
+	}
+
+	if len(nondet) > 0 && exit == 0 {
+		// nothing can be concluded from a clean sweep that does not replay
+		if len(nondet) > 5 {
+			nondet = nondet[:5]
+		}
+		die2("determinism self-test failed: the same seed produced different traces and no violation was confirmed\n%s", strings.Join(nondet, "\n"))
+	}
+	if len(nondet) > 0 {
+		fmt.Printf("NOTE: %d run(s) did not replay identically (the library under test behaves nondeterministically beyond the simulated kernel)\n", len(nondet))
 	}
 
 	// 5. evidence
@@ -444,6 +455,8 @@ func main() {
 	cleanup()
 	os.Exit(exit)
 }
+
+func indent(s string) string { return "    " + strings.ReplaceAll(s, "\n", "\n    ") }
 
 func trunc(s string, n int) string {
 	if len(s) > n {
@@ -579,7 +592,7 @@ func minimiseAndVerify(prop, bin string, r Record, path string) string {
 	b, _ := json.Marshal(r)
 	os.WriteFile(in, b, 0o644)
 	budget := "2500"
-	if strings.HasPrefix(r.Sig, "C08:race") {
+	if strings.Contains(r.Sig, ":race:") {
 		budget = "0" // the detector reports a race once per process: no in-process minimisation
 	}
 	note := ""
@@ -645,7 +658,7 @@ func doReplay(prop, bin, raceBin, file string) int {
 		return 0
 	}
 	use := bin
-	if strings.HasPrefix(head.Sig, "C08:race") && raceBin != "" {
+	if strings.Contains(head.Sig, ":race:") && raceBin != "" {
 		use = raceBin
 	}
 	outF := filepath.Join(workDir, "replay.jsonl")
